@@ -1019,6 +1019,9 @@ func (e *endpoint) connect(addr tcpip.FullAddress, handshake bool, run bool) (er
 		// The endpoint is bound to a port, attempt to register it.
 		err := e.stack.RegisterTransportEndpoint(nicid, netProtos, ProtocolNumber, e.id, e)
 		if err != nil {
+			// The endpoint stays bound: keep the address it reserved
+			// its port under, so that Close releases that reservation.
+			e.id = origID
 			return err
 		}
 	} else {
